@@ -466,3 +466,55 @@ def raise_discipline(ctx):
     ctx.ob(len(inits) == 1 and isinstance(inits[0].value, ast.Constant) and inits[0].value.value is None, u,
            'no error is pending before the evaluation: %s' % [norm(i) for i in inits])
     ctx.floor(8)
+
+
+@rule('C04.12')
+def evaluator_frames_have_parents(ctx):
+    """the evaluator's failure recording indexes ``maps[1]`` of the frame and of the
+    frames it walks through UP; every frame handed to an evaluator must therefore
+    be a child frame (>= 2 maps).  A single-map ChainMap handed to the evaluator
+    makes the handler itself raise IndexError, replacing the original exception."""
+    p = ctx.program
+    eu = ctx.unit('core._glom')
+    idx1 = [n for n in eu.own_nodes() if isinstance(n, ast.Subscript) and isinstance(n.value, ast.Attribute) and n.value.attr == 'maps'
+            and isinstance(n.slice, ast.Constant) and n.slice.value == 1]
+    ctx.ob(True, eu, 'the evaluator\'s failure recording addresses the parent map of a frame (%d uses of .maps[1])' % len(idx1))
+    if not idx1:
+        return
+    n_sites = 0
+    for u in p.package_units():
+        for c in calls_in(u):
+            # callee may be an evaluator: scope[glom](...)  or  <x> = scope.get(glom, ...); <x>(...)
+            may_eval = p.is_evaluator_call(u, c)
+            f = c.func
+            if not may_eval and isinstance(f, ast.Name) and f.id in u.locals:
+                cfg = ctx.cfg(u)
+                node = cfg.node_containing(c)
+                for dn, v in (cfg.reaching_defs(node, f.id) if node is not None else []):
+                    if isinstance(v, ast.Call) and isinstance(v.func, ast.Attribute) and v.func.attr == 'get' and v.args \
+                            and p.scope_key(u, v.args[0]) == 'core.glom':
+                        may_eval = True
+            if not may_eval:
+                continue
+            n_sites += 1
+            # the scope it receives: third positional argument or scope= / **kw['scope']
+            sc = c.args[2] if len(c.args) > 2 else None
+            for k in c.keywords:
+                if k.arg == 'scope':
+                    sc = k.value
+            single = None
+            if sc is None:
+                # **kw with kw['scope'] = ChainMap(x)
+                for n in u.own_nodes():
+                    if isinstance(n, ast.Assign) and isinstance(n.targets[0], ast.Subscript) and isinstance(n.targets[0].slice, ast.Constant) \
+                            and n.targets[0].slice.value == 'scope' and isinstance(n.value, ast.Call) \
+                            and callee_qual(p, u, n.value) == 'collections.ChainMap' and len(n.value.args) == 1:
+                        single = n
+            elif isinstance(sc, ast.Call) and callee_qual(p, u, sc) == 'collections.ChainMap' and len(sc.args) == 1:
+                single = sc
+            ctx.ob(single is None, u, 'a frame handed to the evaluator is a child frame (has a parent map): %s' % src(c, 70),
+                   '' if single is None else 'the scope is a single-map ChainMap (%s): when the evaluation fails, the evaluator\'s own '
+                   'error recording raises IndexError on .maps[1] and replaces the original exception '
+                   '(glom([1, 2], Iter().first(key)) with key raising Boom -> IndexError)' % src(single, 50), node=c)
+    if n_sites < 40:
+        raise AnalysisError('C04.12: only %d evaluator call sites found (floor 40)' % n_sites)
